@@ -1,0 +1,291 @@
+//! Verification hooks (compiled only with `--cfg eigerco_lumina_verif`): access to the mocked
+//! `P2p` handle, the header session and the Shwap multihasher. Adds no behaviour.
+
+use std::sync::Arc;
+use std::time::Duration;
+
+use beetswap::multihasher::Multihasher;
+use celestia_proto::p2p::pb::HeaderRequest;
+use celestia_types::nmt::Namespace;
+use celestia_types::row::Row;
+use celestia_types::row_namespace_data::RowNamespaceData;
+use celestia_types::sample::Sample;
+use celestia_types::{ExtendedDataSquare, ExtendedHeader};
+use cid::Cid;
+use libp2p::PeerId;
+use lumina_utils::executor::spawn;
+use lumina_utils::token::Token;
+use tokio::sync::{mpsc, oneshot, watch};
+use tokio_util::sync::CancellationToken;
+
+use super::header_session::HeaderSession;
+use super::shwap::ShwapMultihasher;
+use super::{P2p, P2pCmd, P2pError};
+use crate::block_ranges::BlockRange;
+use crate::peer_tracker::PeerTrackerInfo;
+use crate::store::Store;
+
+pub use super::header_ex::verif_hx;
+pub use super::shrex::verif_shrex;
+
+/// A `P2p` whose worker is replaced by a command channel owned by the caller.
+#[derive(Clone, Debug)]
+pub struct P2pHandle(pub(crate) Arc<P2p>);
+
+/// The worker side of a mocked `P2p`.
+pub struct MockedP2p {
+    cmd_tx: mpsc::Sender<P2pCmd>,
+    cmd_rx: mpsc::Receiver<P2pCmd>,
+    peer_tracker_tx: watch::Sender<PeerTrackerInfo>,
+}
+
+type Respond<T> = oneshot::Sender<Result<T, P2pError>>;
+
+/// Public mirror of the commands a `P2p` worker receives.
+#[allow(missing_docs)]
+pub enum P2pCommand {
+    HeaderEx {
+        request: HeaderRequest,
+        respond_to: Respond<Vec<ExtendedHeader>>,
+    },
+    InitHeaderSub {
+        head: Box<ExtendedHeader>,
+        channel: mpsc::Sender<ExtendedHeader>,
+    },
+    GetShwapCid {
+        cid: Cid,
+        respond_to: Respond<Vec<u8>>,
+    },
+    GetNetworkCompromisedToken {
+        respond_to: oneshot::Sender<Token>,
+    },
+    GetNetworkHead {
+        respond_to: oneshot::Sender<Option<ExtendedHeader>>,
+    },
+    GetRow {
+        row_index: u16,
+        block_height: u64,
+        respond_to: Respond<Row>,
+    },
+    GetSample {
+        row_index: u16,
+        column_index: u16,
+        block_height: u64,
+        respond_to: Respond<Sample>,
+    },
+    GetNamespaceData {
+        namespace: Namespace,
+        block_height: u64,
+        respond_to: Respond<celestia_types::namespace_data::NamespaceData>,
+    },
+    GetEds {
+        block_height: u64,
+        respond_to: Respond<ExtendedDataSquare>,
+    },
+    SetPeerTrust {
+        peer_id: PeerId,
+        is_trusted: bool,
+    },
+    Other,
+}
+
+/// Creates a mocked `P2p` (same construction as the test-only `P2p::mocked`).
+pub fn mocked_p2p() -> (P2pHandle, MockedP2p) {
+    let (cmd_tx, cmd_rx) = mpsc::channel(16);
+    let (peer_tracker_tx, peer_tracker_rx) = watch::channel(PeerTrackerInfo::default());
+    let cancellation_token = CancellationToken::new();
+
+    // Just a fake join_handle
+    let join_handle = spawn(async {});
+
+    let p2p = P2p {
+        cmd_tx: cmd_tx.clone(),
+        cancellation_token,
+        join_handle,
+        peer_tracker_info_watcher: peer_tracker_rx,
+        local_peer_id: PeerId::random(),
+    };
+
+    (
+        P2pHandle(Arc::new(p2p)),
+        MockedP2p {
+            cmd_tx,
+            cmd_rx,
+            peer_tracker_tx,
+        },
+    )
+}
+
+impl MockedP2p {
+    /// Receive the next command sent to the worker.
+    pub async fn recv(&mut self) -> Option<P2pCommand> {
+        let cmd = self.cmd_rx.recv().await?;
+
+        Some(match cmd {
+            P2pCmd::HeaderExRequest {
+                request,
+                respond_to,
+            } => P2pCommand::HeaderEx {
+                request,
+                respond_to,
+            },
+            P2pCmd::InitHeaderSub { head, channel } => P2pCommand::InitHeaderSub { head, channel },
+            P2pCmd::GetShwapCid { cid, respond_to } => P2pCommand::GetShwapCid { cid, respond_to },
+            P2pCmd::GetNetworkCompromisedToken { respond_to } => {
+                P2pCommand::GetNetworkCompromisedToken { respond_to }
+            }
+            P2pCmd::GetNetworkHead { respond_to } => P2pCommand::GetNetworkHead { respond_to },
+            P2pCmd::GetRow {
+                row_index,
+                block_height,
+                respond_to,
+            } => P2pCommand::GetRow {
+                row_index,
+                block_height,
+                respond_to,
+            },
+            P2pCmd::GetSample {
+                row_index,
+                column_index,
+                block_height,
+                respond_to,
+            } => P2pCommand::GetSample {
+                row_index,
+                column_index,
+                block_height,
+                respond_to,
+            },
+            P2pCmd::GetNamespaceData {
+                namespace,
+                block_height,
+                respond_to,
+            } => P2pCommand::GetNamespaceData {
+                namespace,
+                block_height,
+                respond_to,
+            },
+            P2pCmd::GetEds {
+                block_height,
+                respond_to,
+            } => P2pCommand::GetEds {
+                block_height,
+                respond_to,
+            },
+            P2pCmd::SetPeerTrust {
+                peer_id,
+                is_trusted,
+            } => P2pCommand::SetPeerTrust {
+                peer_id,
+                is_trusted,
+            },
+            _ => P2pCommand::Other,
+        })
+    }
+
+    /// Publish new peer statistics to everything watching this `P2p`.
+    pub fn set_peer_info(&self, info: PeerTrackerInfo) {
+        self.peer_tracker_tx.send_if_modified(|cur| {
+            if *cur != info {
+                *cur = info;
+                true
+            } else {
+                false
+            }
+        });
+    }
+
+    /// Runs a `HeaderSession` for `range` whose requests arrive at this mocked worker.
+    pub fn header_session(
+        &self,
+        range: BlockRange,
+    ) -> impl Future<Output = Result<Vec<ExtendedHeader>, P2pError>> + Send + 'static {
+        let cmd_tx = self.cmd_tx.clone();
+
+        async move {
+            let mut session = HeaderSession::new(range, cmd_tx);
+            session.run().await
+        }
+    }
+}
+
+#[allow(missing_docs)]
+impl P2pHandle {
+    pub async fn get_verified_headers_range(
+        &self,
+        from: &ExtendedHeader,
+        amount: u64,
+    ) -> Result<Vec<ExtendedHeader>, P2pError> {
+        self.0.get_verified_headers_range(from, amount).await
+    }
+
+    pub async fn get_unverified_header_range(
+        &self,
+        range: BlockRange,
+    ) -> Result<Vec<ExtendedHeader>, P2pError> {
+        self.0.get_unverified_header_range(range).await
+    }
+
+    pub async fn get_head_header(&self) -> Result<ExtendedHeader, P2pError> {
+        self.0.get_head_header().await
+    }
+
+    pub async fn get_sample(
+        &self,
+        row: u16,
+        column: u16,
+        height: u64,
+        timeout: Option<Duration>,
+    ) -> Result<Sample, P2pError> {
+        self.0.get_sample(row, column, height, timeout).await
+    }
+
+    pub async fn get_row(
+        &self,
+        row: u16,
+        height: u64,
+        timeout: Option<Duration>,
+    ) -> Result<Row, P2pError> {
+        self.0.get_row(row, height, timeout).await
+    }
+
+    pub async fn get_row_namespace_data(
+        &self,
+        namespace: Namespace,
+        row: u16,
+        height: u64,
+        timeout: Option<Duration>,
+    ) -> Result<RowNamespaceData, P2pError> {
+        self.0
+            .get_row_namespace_data(namespace, row, height, timeout)
+            .await
+    }
+}
+
+/// Runs the Shwap multihasher that bitswap uses on a received block.
+///
+/// Returns the multihash bytes, or the error text.
+pub async fn shwap_hash<S>(store: Arc<S>, multihash_code: u64, block: &[u8]) -> Result<Vec<u8>, String>
+where
+    S: Store + 'static,
+{
+    ShwapMultihasher::new(store)
+        .hash(multihash_code, block)
+        .await
+        .map(|mh| mh.to_bytes())
+        .map_err(|e| e.to_string())
+}
+
+/// `shwap::get_block_container`.
+pub fn get_block_container(expected_cid: &Cid, block: &[u8]) -> Result<Vec<u8>, P2pError> {
+    super::shwap::get_block_container(expected_cid, block)
+}
+
+/// `shwap::sample_cid`.
+pub fn sample_cid(row: u16, column: u16, height: u64) -> Result<Cid, P2pError> {
+    super::shwap::sample_cid(row, column, height)
+}
+
+/// `shwap::convert_cid` for the 64-byte multihash CIDs of Shwap ids.
+pub fn convert_cid(cid: &cid::CidGeneric<64>) -> Result<Cid, P2pError> {
+    super::shwap::convert_cid(cid)
+}
